@@ -137,7 +137,39 @@ def o_file(a):
     return not bad, dict(violated=bad, n_events=n)
 
 
-ORACLES = dict(roundtrip=o_roundtrip, pixels=o_pixels, file=o_file)
+def o_photons(a):
+    """photon lists (the xpphotonlist flavour) of a field with a steady and a pulsating point source: DETX, DETY map back to RA, DEC through the
+    dithered pointing at the photon's TIME and the DU rotation, source by source"""
+    import simdrive
+    from astropy.io import fits
+    from ixpeobssim.srcmodel.roi import xROIModel, xPointSource, xPeriodicPointSource
+    from ixpeobssim.srcmodel.ephemeris import xEphemeris
+    from ixpeobssim.srcmodel.spectrum import power_law
+    from ixpeobssim.srcmodel.polarization import constant
+    ra0, dec0 = a['ra0'], a['dec0']
+    steady = xPointSource('steady', ra0 - 0.03 / math.cos(math.radians(dec0)), dec0 + 0.02, power_law(0.4, 2.), constant(0.1), constant(0.3))
+    pulsar = xPeriodicPointSource('pulsar', ra0 + 0.04 / math.cos(math.radians(dec0)), dec0 - 0.015,
+                                  lambda E, phase: 0.4 * (1. + 0.5 * numpy.cos(2. * numpy.pi * phase)) * E ** -2., constant(0.2), constant(1.), xEphemeris(0., 0.7, -1.e-12))
+    roi = xROIModel(ra0, dec0, steady, pulsar)
+    dith = (1.6, 907., 101., 449.)
+    with scratch() as d:
+        f, kw = simdrive.photon_list(roi, os.path.join(d, 'pl.fits'), du_id=a['du'], seed=a['seed'], duration=1500., argv=['--roll', repr(a['roll'])])
+        with fits.open(f) as h:
+            p = h['PHOTONS'].data
+            t, detx, dety, ra, dec, sid = (numpy.array(p[k], dtype=float) for k in ('TIME', 'DETX', 'DETY', 'RA', 'DEC', 'SRC_ID'))
+    rb, db = ref_gpd_to_sky(detx, dety, t, ra0, dec0, a['du'], a['roll'], tuple(kw[k] for k in ('ditherampl', 'ditherpa', 'ditherpx', 'ditherpy')))
+    e = numpy.hypot((rb - ra) * math.cos(math.radians(dec0)), db - dec) * 3600.
+    bad = []
+    for src in roi.values():
+        m = sid == src.identifier
+        if m.sum() < 100:
+            bad.append('%s: only %d photons' % (src.name, int(m.sum())))
+        elif e[m].max() > 0.5:
+            bad.append('%s: DETX, DETY through the dithered pointing at the photon time miss RA, DEC by up to %.1f arcsec' % (src.name, e[m].max()))
+    return not bad, dict(violated=bad, photons=len(t))
+
+
+ORACLES = dict(roundtrip=o_roundtrip, pixels=o_pixels, file=o_file, photons=o_photons)
 
 
 def run_oracle(chk, name, a, nontrivial=True):
@@ -176,6 +208,7 @@ def explore(chk, budget=1):
                        dither=(float(g.uniform(0.5, 3.)), 907., 101., 449.)) for du in (1, 2, 3)]
     for f in files:
         run_oracle(chk, 'file', dict(f, duration=400., seed=int(g.integers(1, 10 ** 6))))
+    run_oracle(chk, 'photons', dict(ra0=float(g.uniform(5, 355)), dec0=float(g.uniform(-60, 60)), du=int(g.integers(1, 4)), roll=float(g.uniform(0, 360)), seed=int(g.integers(1, 10 ** 6))))
 
 
 def main(chk):
